@@ -37,7 +37,9 @@ EXTRA = {
 FIXED = {
     "S": ["s0 o e0", "s1 e0 o", "e1 s1 s1", "s2 o e1 s1 o e3 s2", "s1 o e1 s2 o e2 s3 o e3 s2 o e2 s1 o e1 o"],
     "L": ["ix o n", "i o n i* n", "i*x o n", "ix", "c o n", "i* o : o n i; o : o n", "i; : : n", "i;* o : n i;* : n",
-          "i* o /ul o /ul n", "i# /ul /ol n", "i* o n ix o n", "i*x o n i* o n o"],
+          "i* o /ul o /ul n", "i# /ul /ol n", "i* o n ix o n", "i*x o n i* o n o",
+          # a one-line definition item followed by lines it swallows: they go into the description node (core.py:540-543)
+          "i; o : o n i;* o n", "i*; o : o n i*;* o n i* o n", "i; o : o n i;; o : o n i: o n", "i; o : o n i;* o n i;# o n i; o n"],
     "P": ["b", "B b B"],
     "Q": ["q2", "q2 n q3", "q3 q2 q5 q2 q3", "q3 q5 n q3 q5 n q3 q5 n q3 q5 n q3 q5 n q3 q5 n"],
     "U": ["2 u 2 2", "u u ] ]"],
